@@ -98,6 +98,8 @@ class RowInterp:
     """Interprets one function on row tensors.  `device_is_mps` selects the branch of `t.device.type == "mps"` tests."""
 
     def __init__(self, fn: ast.FunctionDef, args: dict, mps: bool = False, helpers: Optional[dict] = None):
+        from .core import canon_function
+        fn = canon_function(fn)
         self.fn, self.args, self.mps, self.helpers = fn, args, mps, helpers or {}
         self.alloc = None
 
@@ -222,6 +224,12 @@ class RowInterp:
                 return env[e.id]
             if e.id == "torch":
                 return "torch"
+            from .core import module_lookup
+            r = module_lookup(self.fn, e.id)
+            if isinstance(r, ast.Constant):
+                return r.value
+            if isinstance(r, ast.FunctionDef):
+                return r
             raise RowUnknown(f"name {e.id}")
         if isinstance(e, ast.Tuple):
             out = []
@@ -294,6 +302,13 @@ class RowInterp:
                 a = args[0]
                 return 2 if (isinstance(a, tuple) and len(a) == 2 and a[1] == "rest") else len(a)
             fn = env.get(f.id) or self.helpers.get(f.id)
+            if fn is None:
+                from .core import module_lookup
+                fn = module_lookup(self.fn, f.id)
+            if f.id in ("int", "bool") and len(args) == 1:
+                return args[0]
+            if f.id in ("tuple", "list") and len(args) == 1:
+                return tuple(args[0]) if f.id == "tuple" else list(args[0])
             if isinstance(fn, ast.FunctionDef):
                 names = [a.arg for a in fn.args.args]
                 sub = RowInterp(fn, dict(zip(names, args)), self.mps, {**self.helpers, **{k: v for k, v in env.items() if isinstance(v, ast.FunctionDef)}})
